@@ -431,7 +431,28 @@ def parseRecOrNil (s : String) : Option (Option Rec) :=
 def showIdsN (l : List (Nat × Option Rec)) : String :=
   "[" ++ " ".intercalate (l.map (fun p => if p.2.isSome then toString p.1 else "~")) ++ "]"
 
+/-- a float value without NaN, as far as `<` and the observation can tell: its numeric value (the
+    harness uses integral values) and, for zero, the sign bit (`-0` and `+0` are equal for `<` but
+    distinguishable by `math.Signbit`) -/
+abbrev Flt := Int × Bool
+
+/-- Go's `<` on floats (no NaN): by numeric value; `-0 < +0` is false both ways -/
+def fltLt (a b : Flt) : Bool := decide (a.1 < b.1)
+
+def parseFlt (t : String) : Option Flt :=
+  if t = "-0" then some (0, true) else (t.toInt?).map (fun v => (v, false))
+
+def showFlt (v : Flt) : String := if v.1 == 0 && v.2 then "-0" else toString v.1
+
+def showFlts (l : List Flt) : String := "[" ++ " ".intercalate (l.map showFlt) ++ "]"
+
+/-- records of an `L` (long list) case: generated on both sides from (n, m, k): A_i = (i*m) % k,
+    C_i = (i / 3) % 2, B and D constant — heavy ties -/
+def longRecs (n m k : Nat) : List Rec :=
+  (List.range n).map (fun i => ⟨some (Int.ofNat ((i * m) % k)), some [97], some (Int.ofNat ((i / 3) % 2)), some [120]⟩)
+
 inductive Case
+  | ordf (api : String) (vals : List Flt)
   | nilcmp (api : String) (less : Option Rec → Option Rec → Bool) (recs : List (Option Rec))
   | fork (api : String) (pre : List (Desc Rec)) (sibs : List (List (Desc Rec))) (recs : List Rec)
   | types (api : String) (stacks : List (List (Desc Rec))) (recs : List Rec)
@@ -478,6 +499,25 @@ def parseCase (line : String) : Option Case :=
         if api = "sort" || api = "slice" || api = "ssort" || api = "isort" || isIdxApi api
         then some (.cmp api less recs) else none
       | _, _ => none
+    | ["L", api, what, n, m, k] =>
+      -- long list, compactly encoded; `what` is a comparator name (comparator APIs) or a descriptor stack
+      match n.toNat?, m.toNat?, k.toNat? with
+      | some n, some m, some k =>
+        if k = 0 || n > 20000 then none else
+        let recs := longRecs n m k
+        if api = "sort" || api = "slice" || api = "ssort" || api = "isort" || isIdxApi api then
+          (cmpByName what).map (fun less => .cmp api less recs)
+        else if api = "sl" || api = "sb" || api = "tl" || api = "bs" || api = "slp" || api = "bsp" then
+          match parseStack what with
+          | some ds => if ds.length ≥ 1 then some (.desc api ds recs) else none
+          | none => none
+        else none
+      | _, _, _ => none
+    | ["O", api, "f"] | ["O", api, "g"] =>
+      -- float64 / float32 instantiations of SortOrdered*: -0 and +0 are ties that can be told apart
+      match allSome (toks.map parseFlt) with
+      | some vals => if api = "asc" || api = "desc" || api = "so+" || api = "so-" then some (.ordf api vals) else none
+      | none => none
     | ["O", api, ty] =>
       match parseVals ty toks with
       | some vals => if api = "asc" || api = "desc" || api = "so+" || api = "so-" then some (.ord api vals) else none
@@ -488,6 +528,10 @@ def parseCase (line : String) : Option Case :=
 /-- the model's answer: the sequence of input positions in output order (`D`, `C`), or the values (`O`);
     `mutated` is appended when an input that must stay intact changed. -/
 def runCase : Case → String
+  | .ordf api vals =>
+    if api = "asc" then showFlts (sortOrderedAscending fltLt vals)
+    else if api = "desc" then showFlts (sortOrderedDescending fltLt vals)
+    else showFlts (sortOrdered fltLt (api = "so+") vals)
   | .nilcmp api less recs =>
     let input := tag recs
     if api = "isort" then showIdsN (streamSort (liftLess less) input).1
@@ -591,6 +635,20 @@ def parseIdsN (recs : List (Option Rec)) (obs : String) : Option (List Nat) :=
 
 def judgeCase (c : Case) (impl : String) : String :=
   match c with
+  | .ordf api vals =>
+    let want : Flt → Flt → Bool := if api = "asc" || api = "so+" then fltLt else (fun a b => fltLt b a)
+    if !(impl.startsWith "[" && impl.endsWith "]") then "violation no sorted list returned: " ++ impl else
+    let inner := ((impl.drop 1).toString.dropEnd 1).toString
+    match allSome (((inner.splitOn " ").filter (· ≠ "")).map parseFlt) with
+    | none => "violation no sorted list returned: " ++ impl
+    | some out =>
+      if out.length != vals.length || !(vals.all (fun v => (out.filter (· == v)).length == (vals.filter (· == v)).length)) then
+        "violation result is not a permutation of the input"
+      else if !pairwiseB (fun a b => !want b a) out then "violation result is not ordered"
+      -- stable: every class of values the comparator does not distinguish (here: -0 / +0) keeps its input order
+      else if !(vals.all (fun v => out.filter (equivBy want v) == vals.filter (equivBy want v))) then
+        "violation result is not stable (equal values that can be told apart changed their order)"
+      else "allowed ordered stable permutation"
   | .nilcmp _ less recs =>
     match parseIdsN recs impl with
     | none => "violation no sorted list returned (or more nil entries than the input has): " ++ impl
